@@ -41,6 +41,10 @@ STATIC_TREE = {
     # __init__.py finds and what the imported package object holds are not the same thing)
     "vs_pkg2/__init__.py": "from .shapes import *\n",
     "vs_pkg2/shapes.py": "def area(x):\n    return x * x\n\n\ndef perimeter(x):\n    return 4 * x\n",
+    # a module that star-imports an unparsable one and defines something itself: tracing a name that is
+    # not its own makes the tool raise SyntaxError out of the call; a later call must not notice
+    "vs_helpers.py": "from vs_legacy import *\n\n\ndef bar():\n    return 'bar'\n\n\ndef baz():\n    return 'baz'\n",
+    "vs_legacy.py": "def broken(:\n    pass\n",
     # mutual fallback: the last binding of `dumps` in each module is an import from the other
     "vs_fast.py": '"""Accelerated helpers, falling back to the pure python ones."""\ntry:\n    from _vs_speedups import dumps\nexcept ImportError:\n    from vs_pure import dumps\n',
     "vs_pure.py": '"""Pure python helpers; the accelerated versions are preferred when available."""\nimport json\n\n\ndef dumps(obj):\n    return json.dumps(obj, sort_keys=True)\n\n\ntry:\n    from vs_fast import dumps\nexcept ImportError:\n    pass\n',
@@ -546,6 +550,14 @@ def _ref_child(knobs: str, op: Dict[str, Any]) -> Any:
     apply_knobs(knobs)
     obs = Observer()
     obs.install()
+    if op.get("op") == "MIDS":
+        # the whole-module texts a fresh format_code call on x passes through between its rules
+        x = op["x"]
+        obs.parsed_in_op = {}
+        res = _guarded(run_reference_op, dict(op, op="FMT"))
+        mids = [s_ for s_ in obs.parsed_in_op if isinstance(s_, str) and s_ != x and len(s_) >= 0.6 * len(x) and len(s_) <= 2 * len(x) + 200]
+        final = res[1] if res and res[0] == "ok" else None
+        return ["ok", [m for m in mids if m != final][:40]]
     res = _guarded(run_reference_op, op)
     return res
 
@@ -691,6 +703,18 @@ def execute(case: Dict[str, Any]) -> Dict[str, Any]:
                 # the disk is part of what a reference depends on: stamp its state into the (memo) key
                 op["disk"] = C.sha(sorted((str(p.relative_to(private_dir)), p.read_text()) for p in private_dir.rglob("*.py")))[:16]
                 ops[i] = op
+            if op.get("x_mid_of") is not None:
+                # input = one of the texts a *fresh* format_code call on another input passes through between
+                # its rules (an earlier call on a text that a later call will meet half way)
+                ask = {k_: v_ for k_, v_ in op.items() if k_ in ("safe", "keep_imports", "preserve", "max_line_length", "tree")}
+                mids = server.get(dict(ask, op="MIDS", x=op["x_mid_of"]))
+                if not (mids and mids[0] == "ok" and mids[1]):
+                    log.add("op", i, op["op"], "skipped: no intermediate text")
+                    continue
+                op = {k_: v_ for k_, v_ in op.items() if k_ not in ("x_mid_of", "mid_pick")}
+                op["x"] = mids[1][ops[i]["mid_pick"] % len(mids[1])]
+                ops[i] = op  # the replay file carries the explicit text
+                stats.inc("op.MID_resolved")
             if op.get("x_from") is not None:  # REFMT / TWIN: input is an earlier output
                 prev = outputs.get(op["x_from"])
                 if not (isinstance(prev, list) and prev[0] == "ok" and isinstance(prev[1], str)):
@@ -965,7 +989,7 @@ def generate(rng: random.Random, profile: Optional[Dict[str, Any]] = None) -> Di
     mix = {
         "FMT": rng.choice([1, 3, 6]), "RULE": rng.choice([2, 6, 10]), "PAT": rng.choice([0, 2, 4]),
         "SAME": rng.choice([1, 3, 5]), "REFMT": rng.choice([0, 1, 3]), "EVICT": rng.choice([0, 0, 1]),
-        "LAZY": rng.choice([0, 1, 2]), "PARSE": rng.choice([0, 1]),
+        "LAZY": rng.choice([0, 1, 2]), "PARSE": rng.choice([0, 1]), "MID": rng.choice([0, 0, 1, 3]),
     }
     kinds = list(mix)
     weights = [mix[k] for k in kinds]
@@ -1034,6 +1058,20 @@ def generate(rng: random.Random, profile: Optional[Dict[str, Any]] = None) -> Di
             for kk in ("safe", "keep_imports", "preserve", "max_line_length"):
                 if kk in base:
                     op[kk] = base[kk]
+        elif k == "MID":
+            # an intermediate state of a focus input first, the input itself (same options) right after or later
+            t_ = rng.choice(focus)
+            op = {"op": "FMT", "x": "", "x_mid_of": t_, "mid_pick": rng.randrange(40)}
+            follow = {"op": "FMT", "x": t_}
+            for kk, vv in (("safe", True), ("keep_imports", True), ("max_line_length", rng.choice([60, 79, 120]))):
+                if rng.random() < 0.15:
+                    op[kk] = follow[kk] = vv
+            text_ops.append(len(ops))
+            ops.append(op)
+            if rng.random() < 0.7:
+                op = follow
+            else:
+                continue
         elif k == "EVICT":
             op = {"op": "EVICT", "k": rng.choice([5, 50, 120]), "tag": len(ops)}
         elif k == "PARSE":
@@ -1210,6 +1248,20 @@ def generate_trees(rng: random.Random, profile: Dict[str, Any]) -> Dict[str, Any
             if ops_p[-1]["op"] == "RULE":
                 ops_p[-1]["rule"] = rng.choice(["tracing.fix_reimported_names", "tracing.fix_starred_imports"])
         return {"engine": "e2", "knobs": "default", "ops": ops_p, "keep_going": False, "trees": True}
+    if rng.random() < 0.2:
+        # calls that raise half way (an imported module does not parse), then calls on other texts that
+        # go through the same modules: the aftermath is judged against a fresh process
+        raising = ["from vs_helpers import *\n\nprint(foo())\n", "from vs_helpers import *\nfrom vs_lib import *\n\nprint(foo(), lib_func(1))\n"]
+        after = ["from vs_helpers import *\n\nprint(bar())\n", "from vs_helpers import *\n\nprint(bar(), baz())\n",
+                 "from vs_lib import *\nfrom vs_helpers import *\n\nprint(baz(), lib_func(2))\n", "from vs_helpers import bar\n\nprint(bar())\n"]
+        ops_r: List[Dict[str, Any]] = []
+        for _ in range(rng.randint(3, 8)):
+            x = rng.choice(raising if rng.random() < 0.4 else after)
+            op_r: Dict[str, Any] = {"op": "FMT", "x": x, "tree": "A"}
+            if rng.random() < 0.3:
+                op_r = {"op": "RULE", "rule": rng.choice(["tracing.fix_reimported_names", "tracing.fix_starred_imports"]), "x": x, "tree": "A"}
+            ops_r.append(op_r)
+        return {"engine": "e2", "knobs": rng.choice(["default", "unbounded"]), "ops": ops_r, "keep_going": False, "trees": True}
     clients = [c for c in gen.STATIC_TREE_CLIENTS if "vs_pkg" not in c]
     variants = []
     for c in clients:
